@@ -715,6 +715,7 @@ func encodeForeign(c FCase, layout []bgzf.Chunk) []byte {
 			return &ents[len(ents)-1]
 		}
 		var intervals []uint64
+		var isSet []bool
 		for i, r := range c.S.Recs {
 			if r.Ref != ref {
 				continue
@@ -732,16 +733,18 @@ func encodeForeign(c FCase, layout []bgzf.Chunk) []byte {
 				for tile := r.Start >> 14; tile <= (r.End-1)>>14; tile++ {
 					for len(intervals) <= tile {
 						intervals = append(intervals, 0)
+						isSet = append(isSet, false)
 					}
-					if intervals[tile] == 0 {
+					if !isSet[tile] { // offset zero is a real position: a flag, not the value, says "unset"
 						intervals[tile] = vo(layout[i].Begin)
+						isSet[tile] = true
 					}
 				}
 			}
 		}
 		// back-fill empty tiles as htslib does
 		for i := len(intervals) - 2; i >= 0; i-- {
-			if intervals[i] == 0 {
+			if !isSet[i] {
 				intervals[i] = intervals[i+1]
 			}
 		}
